@@ -33,57 +33,85 @@ ASSUMPTIONS = [
     "floats returned by composition_conservation are encoded as rationals p/q (q <= 10^6, residual <= 1e-12)",
 ]
 
-QUICK = ["single_q", "cfgs_q", "sys_q"]
-THOROUGH = ["single_t", "cfgs_t", "sys_t"]
+QUICK = ["single_q", "cfgs_q", "sys_q", "hist_q"]
+THOROUGH = ["single_t", "cfgs_t", "sys_t", "hist_t"]
 ACTIONS = ["GenSystem", "SetExtent", "GenNoPerturb", "GenBreakQuotient", "GenScale",
            "GenBreakConservation", "GenResidual"]
 ROUNDTRIP_TOL = 1e-9
 
 
 # ------------------------------------------------------------------ observation
-def observe(inp, tolz, tolnz):
-    """Evaluate the real code on one constructed input (case `in` or trace-derived)."""
+def evaluations_of(inp):
+    """the evaluations made on one residual object: earlier ones (history) and the current one"""
+    evs = [dict(K=h["K"], c=h["c"], c0=h["c0"], pert=h["pert"]) for h in inp.get("hist", [])]
+    evs.append(dict(K=inp["K"], c=inp["c"], c0=inp["c0"], pert=inp["pert"]))
+    return evs
+
+
+def observe_all(inp, tolz, tolnz):
+    """Evaluate the real code on one constructed input: ONE EqSystem (built with the constants of the
+    first evaluation), ONE NumSys object, evaluated once per entry of evaluations_of(inp) with that
+    entry's parameters (initial state ++ constants).  Returns one observation per evaluation."""
     import sympy
-    consts = [ec.srat(k) for k in inp["K"]]
-    es, names = ec.build_system(inp["species"], inp["nu"], consts)
-    c = [ec.srat(v) for v in inp["c"]]
-    c0 = [ec.srat(v) for v in inp["c0"]]
-    params = c0 + consts
-    obs = {"raised": False, "exc": "", "unrepresentable": False, "len": -1, "cls": "", "max": None, "roundtrip": None,
-           "q": [], "keys": [], "totc": [], "tot0": []}
+    evs = evaluations_of(inp)
+    es, names = ec.build_system(inp["species"], inp["nu"], [ec.srat(k) for k in evs[0]["K"]])
+    ns, ns_exc = None, None
     try:
         ns = ec.numsys_class(inp["ns"])(es, backend=sympy, rref_equil=bool(inp["re"]),
                                         rref_preserv=bool(inp["rp"]))
-        y = ec.internal_state(ns, inp["ns"], c, params)
-        if y is None:
-            obs["unrepresentable"] = True
-            return obs
-        obs["roundtrip"] = ec.roundtrip_error(ns, y, c, params)
-        f = ns.f(y, params)
-        obs["len"] = len(f)
-        obs["cls"], obs["max"] = ec.classify_residual(f, tolz, tolnz)
-    except Exception as ex:  # projected: exception -> class name
-        obs["raised"] = True
-        obs["exc"] = type(ex).__name__
-        obs["msg"] = str(ex)[:160]
-    try:
-        fc = [Fraction(int(v[0]), int(v[1])) for v in inp["c"]]
-        f0 = [Fraction(int(v[0]), int(v[1])) for v in inp["c0"]]
-        obs["q"] = [ec.rat_pair(q) for q in es.equilibrium_quotients(fc)]
-        keys, totc, tot0 = es.composition_conservation(fc, f0)
-        obs["keys"] = [int(k) for k in keys]
-        obs["totc"] = [ec.float_rat_pair(v) for v in totc]
-        obs["tot0"] = [ec.float_rat_pair(v) for v in tot0]
     except Exception as ex:
-        obs["helpers_raised"] = type(ex).__name__ + ": " + str(ex)[:120]
-    return obs
+        ns_exc = ex
+    out = []
+    for ev in evs:
+        consts = [ec.srat(k) for k in ev["K"]]
+        c = [ec.srat(v) for v in ev["c"]]
+        c0 = [ec.srat(v) for v in ev["c0"]]
+        params = c0 + consts
+        obs = {"raised": False, "exc": "", "unrepresentable": False, "len": -1, "cls": "", "max": None,
+               "roundtrip": None, "q": [], "keys": [], "totc": [], "tot0": []}
+        try:
+            if ns_exc is not None:
+                raise ns_exc
+            y = ec.internal_state(ns, inp["ns"], c, params)
+            if y is None:
+                obs["unrepresentable"] = True
+            else:
+                obs["roundtrip"] = ec.roundtrip_error(ns, y, c, params)
+                f = ns.f(y, params)
+                obs["len"] = len(f)
+                obs["cls"], obs["max"] = ec.classify_residual(f, tolz, tolnz)
+        except Exception as ex:  # projected: exception -> class name
+            obs["raised"] = True
+            obs["exc"] = type(ex).__name__
+            obs["msg"] = str(ex)[:160]
+        try:
+            fc = [Fraction(int(v[0]), int(v[1])) for v in ev["c"]]
+            f0 = [Fraction(int(v[0]), int(v[1])) for v in ev["c0"]]
+            obs["q"] = [ec.rat_pair(q) for q in es.equilibrium_quotients(fc)]
+            keys, totc, tot0 = es.composition_conservation(fc, f0)
+            obs["keys"] = [int(k) for k in keys]
+            obs["totc"] = [ec.float_rat_pair(v) for v in totc]
+            obs["tot0"] = [ec.float_rat_pair(v) for v in tot0]
+        except Exception as ex:
+            obs["helpers_raised"] = type(ex).__name__ + ": " + str(ex)[:120]
+        out.append(obs)
+    return out
 
 
-def disagreements(inp, exp, obs):
-    """spec -> code comparison; every expected value is TLC's."""
+def observe(inp, tolz, tolnz):
+    return observe_all(inp, tolz, tolnz)[-1]
+
+
+def disagreements(inp, exp, obs, nth=0, pert=None):
+    """spec -> code comparison of evaluation number nth of one object; every expected value is TLC's."""
     fn = "NumSys%s.f" % inp["ns"]
     cfg = {"re": bool(inp["re"]), "rp": bool(inp["rp"])}
+    if nth > 0:
+        cfg["reused"] = True   # the object had been evaluated before with other parameters
+    pert = pert or inp["pert"]
     bad = []
+    if obs["unrepresentable"]:
+        return bad
     if obs["raised"]:
         bad.append(dict(fn=fn, what="raises", exc=obs["exc"], **cfg))
     else:
@@ -93,7 +121,7 @@ def disagreements(inp, exp, obs):
             bad.append(dict(fn=fn, what="len", **cfg))
         want = "zero" if exp["zero"] else "nonzero"
         if obs["cls"] != want:
-            bad.append(dict(fn=fn, what=want + "-expected", pert=inp["pert"]["kind"], **cfg))
+            bad.append(dict(fn=fn, what=want + "-expected", pert=pert["kind"], **cfg))
     if "helpers_raised" in obs:
         bad.append(dict(fn="equilibrium_quotients/composition_conservation", what="raises"))
     else:
@@ -105,8 +133,18 @@ def disagreements(inp, exp, obs):
 
 
 def replay_case(case):
-    obs = observe(case["in"], case["exp"]["tolz"], case["exp"]["tolnz"])
-    return obs, disagreements(case["in"], case["exp"], obs)
+    inp, exp = case["in"], case["exp"]
+    allobs = observe_all(inp, exp["tolz"], exp["tolnz"])
+    bad = []
+    for nth, (h, o) in enumerate(zip(inp.get("hist", []), allobs)):
+        hexp = dict(zero=h["zero"], neq=exp["neq"], q=h["q"], keys=exp["keys"], totc=h["totc"], tot0=h["tot0"])
+        bad += disagreements(inp, hexp, o, nth=nth, pert=h["pert"])
+    bad += disagreements(inp, exp, allobs[-1], nth=len(allobs) - 1)
+    obs = allobs[-1]
+    if len(allobs) > 1:
+        obs = dict(obs)
+        obs["earlier"] = [{k: o[k] for k in ("cls", "len", "max", "raised")} for o in allobs[:-1]]
+    return obs, bad
 
 
 def _expected_view(exp):
@@ -119,7 +157,7 @@ def _nontrivial(inp):
 
 def _ident(inp):
     return [inp["nu"], inp["K"], inp["c"], inp["c0"], inp["ns"], inp["re"], inp["rp"],
-            [s["name"] for s in inp["species"]]]
+            [s["name"] for s in inp["species"]], [[h["K"], h["c"], h["c0"]] for h in inp.get("hist", [])]]
 
 
 # ------------------------------------------------------------------ code -> spec generator
@@ -161,66 +199,83 @@ class Pool(object):
         return rids, [self.species[k] for k in sidx], nu
 
 
+def _gen_eval(rng, nu, n):
+    """one (ceq, xi, c0, c, pert) construction for a system, or None when inadmissible"""
+    ceq = [rng.choice(QUARTERS) for _ in range(n)]
+    xi = [rng.choice(EXTENTS) if rng.random() < 0.7 else Fraction(0) for _ in nu]
+    c0 = [ceq[j] - sum(x * row[j] for x, row in zip(xi, nu)) for j in range(n)]
+    if min(c0) < 0:
+        return None
+    kind = rng.choice(["none", "none", "extent", "scale", "shift0"])
+    c, pert = list(ceq), {"kind": "none", "i": 0, "a": [0, 1]}
+    if kind == "extent":
+        i, d = rng.randrange(len(nu)), rng.choice(DELTAS)
+        c = [ceq[j] + d * nu[i][j] for j in range(n)]
+        if min(c) <= 0:
+            return None
+        pert = {"kind": kind, "i": i + 1, "a": _pair(d)}
+    elif kind == "scale":
+        j, f = rng.randrange(n), rng.choice(FACTORS)
+        c[j] = ceq[j] * f
+        pert = {"kind": kind, "i": j + 1, "a": _pair(f)}
+    elif kind == "shift0":
+        j, d = rng.randrange(n), rng.choice(SHIFTS)
+        if c0[j] + d < 0:
+            return None
+        c0[j] = c0[j] + d
+        pert = {"kind": kind, "i": j + 1, "a": _pair(d)}
+    return dict(ceq=ceq, xi=xi, c0=c0, c=c, pert=pert)
+
+
 def gen_trace(pool, rng, max_rxns):
-    """One seeded construction (inputs only; K and every expectation are left to TLC)."""
+    """One seeded construction (inputs only; K and every expectation are left to TLC): a system, a
+    formulation and one to three evaluations of the same residual object."""
     for _ in range(200):
         rids = rng.sample(sorted(pool.rx), rng.randint(1, max_rxns))
         rids, species, nu = pool.system(rids)
-        n = len(species)
-        ceq = [rng.choice(QUARTERS) for _ in range(n)]
-        xi = [rng.choice(EXTENTS) if rng.random() < 0.7 else Fraction(0) for _ in rids]
-        c0 = [ceq[j] - sum(x * row[j] for x, row in zip(xi, nu)) for j in range(n)]
-        if min(c0) < 0:
+        evs = [_gen_eval(rng, nu, len(species)) for _ in range(rng.choice([1, 1, 2, 2, 3]))]
+        if any(e is None for e in evs):
             continue
-        kind = rng.choice(["none", "none", "extent", "scale", "shift0"])
-        c, pert = list(ceq), {"kind": "none", "i": 0, "a": [0, 1]}
-        if kind == "extent":
-            i, d = rng.randrange(len(rids)), rng.choice(DELTAS)
-            c = [ceq[j] + d * nu[i][j] for j in range(n)]
-            if min(c) <= 0:
-                continue
-            pert = {"kind": kind, "i": i + 1, "a": _pair(d)}
-        elif kind == "scale":
-            j, f = rng.randrange(n), rng.choice(FACTORS)
-            c[j] = ceq[j] * f
-            pert = {"kind": kind, "i": j + 1, "a": _pair(f)}
-        elif kind == "shift0":
-            j, d = rng.randrange(n), rng.choice(SHIFTS)
-            if c0[j] + d < 0:
-                continue
-            c0[j] = c0[j] + d
-            pert = {"kind": kind, "i": j + 1, "a": _pair(d)}
         re_, rp = rng.choice(FLAGS)
-        return dict(rids=rids, species=species, nu=nu, ceq=ceq, xi=xi, c0=c0, c=c, pert=pert,
-                    ns=rng.choice(ec.NUMSYS), re=re_, rp=rp)
+        return dict(rids=rids, species=species, nu=nu, evals=evs, ns=rng.choice(ec.NUMSYS), re=re_, rp=rp)
     raise core.MachineryFailure("C07 generator: no admissible construction found")
 
 
-def _k_of(g):
-    """K := Q(ceq) - needed only to build the Equilibrium objects; TLC recomputes it and judges
-    with its own value (the trace does not contain K)."""
+def _k_of(nu, ceq):
+    """K := Q(ceq) - needed only to hand the constants to the code as parameters; TLC recomputes it and
+    judges with its own value (the trace does not contain K)."""
     ks = []
-    for row in g["nu"]:
+    for row in nu:
         q = Fraction(1)
-        for v, cj in zip(row, g["ceq"]):
+        for v, cj in zip(row, ceq):
             if v:
                 q *= cj ** v
         ks.append(_pair(q))
     return ks
 
 
+OBS_FIELDS = ("raised", "len", "cls", "q", "keys", "totc", "tot0")
+
+
 def run_trace(g):
-    inp = dict(species=g["species"], nu=g["nu"], K=_k_of(g), c=[_pair(v) for v in g["c"]],
-               c0=[_pair(v) for v in g["c0"]], ns=g["ns"], re=g["re"], rp=g["rp"], pert=g["pert"])
-    obs = observe(inp, 10, 6)
-    o = {k: obs[k] for k in ("raised", "len", "cls", "q", "keys", "totc", "tot0")}
+    recs = [dict(K=_k_of(g["nu"], e["ceq"]), c=[_pair(v) for v in e["c"]], c0=[_pair(v) for v in e["c0"]],
+                 pert=e["pert"]) for e in g["evals"]]
+    inp = dict(species=g["species"], nu=g["nu"], ns=g["ns"], re=g["re"], rp=g["rp"], hist=recs[:-1], **recs[-1])
+    allobs = observe_all(inp, 10, 6)
     tr = [{"ev": "sys", "rs": g["rids"]}]
-    tr += [{"ev": "conc", "v": _pair(v)} for v in g["ceq"]]
-    tr += [{"ev": "extent", "x": _pair(x)} for x in g["xi"]]
-    p = dict(g["pert"])
-    p["ev"] = "pert"
-    tr.append(p)
-    tr.append({"ev": "result", "ns": g["ns"], "re": g["re"], "rp": g["rp"], "obs": o})
+    for n, (e, obs) in enumerate(zip(g["evals"], allobs)):
+        if n:
+            tr.append({"ev": "again"})
+        tr += [{"ev": "conc", "v": _pair(v)} for v in e["ceq"]]
+        tr += [{"ev": "extent", "x": _pair(x)} for x in e["xi"]]
+        p = dict(e["pert"])
+        p["ev"] = "pert"
+        tr.append(p)
+        tr.append({"ev": "result", "ns": g["ns"], "re": g["re"], "rp": g["rp"],
+                   "obs": {k: obs[k] for k in OBS_FIELDS}})
+    obs = dict(allobs[-1])
+    obs["unrepresentable"] = any(o["unrepresentable"] for o in allobs)
+    obs["all"] = [{k: o[k] for k in ("cls", "len", "max", "raised", "exc")} for o in allobs]
     return tr, obs, inp
 
 
@@ -228,13 +283,15 @@ CLAUSE_WHAT = {"raises": "raises", "len": "len", "zero-expected": "zero-expected
                "nonzero-expected": "nonzero-expected"}
 
 
-def _trace_key(inp, obs, clause):
+def _trace_key(inp, obs, clause, nth=0):
     if clause in CLAUSE_WHAT:
         key = dict(fn="NumSys%s.f" % inp["ns"], what=CLAUSE_WHAT[clause], re=bool(inp["re"]), rp=bool(inp["rp"]))
+        if nth > 0:
+            key["reused"] = True
         if clause == "raises":
-            key["exc"] = obs["exc"]
+            key["exc"] = obs["all"][nth]["exc"] if "all" in obs else obs["exc"]
         if clause.endswith("expected"):
-            key["pert"] = inp["pert"]["kind"]
+            key["pert"] = evaluations_of(inp)[min(nth, len(evaluations_of(inp)) - 1)]["pert"]["kind"]
         return key
     return dict(fn="equilibrium_quotients" if clause == "quotients" else "composition_conservation", what="value")
 
@@ -245,15 +302,24 @@ def run(ctx):
     per_slice = 1500 if ctx.quick else 60000
     pool_cases = None
     for sl in slices:
+        history = sl.startswith("hist")
+        acts = [a for a in ACTIONS if not history or a in ("GenSystem", "GenNoPerturb", "GenBreakQuotient", "Residual")]
         res = ctx.tlc("Equilibria_MC", "Equilibria_MC_%s.cfg" % sl,
-                      require_actions=ACTIONS if ctx.quick else (), require_cases=1000, timeout=1500)
+                      require_actions=(acts + (["Again"] if history else [])) if ctx.quick else (),
+                      require_cases=1000, timeout=1500)
         cases = res.cases
         if pool_cases is None:
             pool_cases = cases
         kinds = collections.Counter(c["in"]["pert"]["kind"] for c in cases)
-        for k in ("none", "extent", "scale", "shift0"):
+        for k in (("none", "extent") if history else ("none", "extent", "scale", "shift0")):
             if not kinds[k]:
                 raise core.MachineryFailure("vacuity: no %s case in slice %s" % (k, sl))
+        if history:
+            # a history case is only informative when the object is re-used with OTHER constants
+            differ = sum(1 for c in cases if c["in"]["hist"] and c["in"]["hist"][0]["K"] != c["in"]["K"])
+            ctx.counters["history_cases_with_changed_K"] += differ
+            if differ < 100:
+                raise core.MachineryFailure("vacuity: %d history cases with changed constants in %s" % (differ, sl))
         sel = ctx.pick(cases, per_slice)
         outs = ctx.pmap(replay_case, sel)
         ctx.cases_replayed += len(sel)
@@ -301,7 +367,8 @@ def run(ctx):
         if clause.startswith("step:") or clause in ("notready", "no-result-event"):
             raise core.MachineryFailure("generated trace outside the model: %s at %d: %r" % (clause, pos, tr[:3]))
         ctx.ran(_ident(inp), nontrivial=_nontrivial(inp))
-        ctx.violation(_trace_key(inp, obs, clause),
+        nth = sum(1 for e in tr[:pos] if e["ev"] == "again")
+        ctx.violation(_trace_key(inp, obs, clause, nth),
                       {"direction": "code->spec", "trace": tr, "observed": obs, "input": inp,
                        "verdict": {"verdict": v, "pos": pos, "clause": clause}, "tlc_cfg": "EquilibriaTrace.cfg"})
     if outside > 0.5 * len(traces):
@@ -322,13 +389,17 @@ def replay(ctx, rec):
                 break
     else:
         inp = rec["input"]
-        obs = observe(inp, 10, 6)
-        if obs["unrepresentable"]:
+        allobs = observe_all(inp, 10, 6)
+        if any(o["unrepresentable"] for o in allobs):
             ctx.skip("state-outside-variable-range-of-" + inp["ns"])
             return
-        tr = list(rec["trace"])
-        tr[-1] = dict(tr[-1])
-        tr[-1]["obs"] = {k: obs[k] for k in ("raised", "len", "cls", "q", "keys", "totc", "tot0")}
+        tr, k = [], 0
+        for e in rec["trace"]:
+            e = dict(e)
+            if e["ev"] == "result":
+                e["obs"] = {f: allobs[k][f] for f in OBS_FIELDS}
+                k += 1
+            tr.append(e)
         v, pos, clause = ctx.validate_traces("EquilibriaTrace", "EquilibriaTrace.cfg", [tr])[0]
         if v != "accept":
-            ctx.violation(rec["key"], {"observed": obs, "verdict": {"verdict": v, "pos": pos, "clause": clause}})
+            ctx.violation(rec["key"], {"observed": allobs[-1], "verdict": {"verdict": v, "pos": pos, "clause": clause}})
